@@ -114,6 +114,11 @@ def palette(key):
         # durations that are no binary fractions (exact as TimeType); continuous inside, a jump at the end
         d, ea, eb = DECIMAL_KEYS[key]
         wf = both(W.FunctionWaveform(ExpressionScalar(ea), _tt(F(d)), 'A'), W.FunctionWaveform(ExpressionScalar(eb), _tt(F(d)), 'B'))
+    elif key == 'q14':
+        # shorter than one sample on coarse grids
+        wf = both(tab('A', [(0, 0.25, hold), (0.25, 0.5, lin)]), tab('B', [(0, -0.5, hold), (0.25, -0.25, lin)]))
+    elif key == 'q34':
+        wf = both(tab('A', [(0, 1, hold), (0.75, 0.25, lin)]), W.FunctionWaveform(ExpressionScalar('t - 0.5'), _tt(F(3, 4)), 'B'))
     elif key == 'z0':
         # marker-like channels: piecewise constant with a leading exact zero (0 -> L once merged with z1)
         wf = const(F(1, 2), 0.0, 0.25)
@@ -199,22 +204,26 @@ _sample_cache = {}      # id(waveform) -> (waveform kept alive, samples); palett
 
 
 def render(loop, rate=None):
-    """sampled voltages of the program, leaf by leaf, the way a driver samples each played waveform:
-    `get_sampled(channel, arange(n) / rate)`.  Default grid: STEP (rate 4)."""
+    """Independent reference: the sampled voltages of the program on the global grid k / rate, computed LEAF BY
+    LEAF from the played leaf waveforms.  Every occurrence of a leaf starts at the exact accumulated time T
+    (a Fraction); it owns the grid points T <= k/rate < T + D and is sampled on its own through the public
+    `get_sampled(channel, k/rate - T)` (exact local times).  Leaf durations need not be whole numbers of samples.
+    Default grid: STEP (rate 4)."""
     np, L, W, TimeType = _q()
     rate = int(1 / STEP) if rate is None else int(rate)
     cache = _sample_cache
     if len(cache) > 5000:
         cache.clear()
     pieces = {'A': [], 'B': []}
+    clock = [F(0)]
 
-    def sample(wf):
-        k = (id(wf), rate)
+    def sample(wf, phase, dsamples):
+        # phase = distance (in samples) from the leaf's start to its first grid point, 0 <= phase < 1
+        k = (id(wf), rate, phase)
         if k not in cache:
-            n = core.to_frac(wf.duration) * rate
-            if n.denominator != 1:
-                raise core.MachineryError('leaf duration %s off the rendering grid' % wf.duration)
-            t = np.arange(int(n)) / rate
+            n = dsamples - phase
+            n = 0 if n <= 0 else int(-((-n.numerator) // n.denominator))       # ceil
+            t = np.array([float((phase + j) / rate) for j in range(n)], dtype=float)
             cache[k] = (wf, {ch: np.array(wf.get_sampled(ch, t), dtype=float) for ch in ('A', 'B')})
         return cache[k][1]
 
@@ -223,12 +232,25 @@ def render(loop, rate=None):
     def emit(node):
         rep = int(node.repetition_count)
         if len(node) == 0:
-            if node.waveform is None:
+            wf = node.waveform
+            if wf is None:
                 return
-            s = sample(node.waveform)
-            for ch in pieces:
-                pieces[ch].extend([s[ch]] * rep)
-            budget[0] -= rep
+            d = core.to_frac(wf.duration)
+            dsamples = d * rate
+            if dsamples.denominator == 1 and (clock[0] * rate).denominator == 1:
+                s = sample(wf, F(0), dsamples)
+                for ch in pieces:
+                    pieces[ch].extend([s[ch]] * rep)
+                clock[0] += d * rep
+                budget[0] -= rep
+            else:
+                for _ in range(rep):
+                    phase = (-clock[0] * rate) % 1
+                    s = sample(wf, phase, dsamples)
+                    for ch in pieces:
+                        pieces[ch].append(s[ch])
+                    clock[0] += d
+                budget[0] -= rep
         else:
             for _ in range(rep):
                 for c in node:
@@ -977,7 +999,7 @@ def family_exhaustive(ctx):
 def family_random(ctx):
     rng = ctx.fork('random')
     cases = []
-    n = ctx.n(180, 3000)
+    n = ctx.n(160, 3000)
     while n > 0:
         t = random_tree(rng, 40)
         if play_len(t) > 3000:
@@ -1130,6 +1152,38 @@ def family_decimal(ctx):
     return cases
 
 
+OFFGRID_KEYS = ['rramp', 'c05a', 'ramp2', 'tab1', 'cm', 'q14', 'q34', 'fun1', 'mk0']
+
+
+def family_offgrid(ctx):
+    """leaves whose durations are NOT whole numbers of samples (1.5, 0.5, 0.25, 0.75 samples at rate 1; leaves that
+    lie entirely between two neighbouring sample points), merged by make_compatible at that rate; the reference
+    is rendered leaf by leaf from the original leaves with exact offsets"""
+    rng = ctx.fork('offgrid')
+    seqs = [list(k) for n in (3, 4) for k in itertools.product(OFFGRID_KEYS, repeat=n)]
+    if ctx.quick:
+        seqs = rng.sample(seqs, 260)
+    cases = []
+    for keys in seqs:
+        for rate in (1, 2):
+            total = sum((core.to_frac(palette(k).duration) for k in keys), F(0)) * rate
+            if total.denominator != 1 or all((core.to_frac(palette(k).duration) * rate).denominator == 1 for k in keys):
+                continue
+            r0 = rng.choice([1, 1, 2])
+            flat = [r0, False, False, None, [[1, False, False, k, []] for k in keys]]
+            nested = [1, False, False, None, [[1, False, False, keys[0], []],
+                                              [r0, False, False, None, [[1, False, False, k, []] for k in keys[1:]]]]]
+            for t in (flat, nested):
+                if (total * t[0]).denominator != 1:
+                    continue
+                for a in (int(total), 2, int(total) * 4):
+                    cases.append({'source': {'tree': t}, 'op': ['compat', a, 1, str(rate)], 'rate': rate})
+                cases.append({'source': {'tree': t}, 'op': ['flatten', 1], 'rate': rate})
+    ctx.exhaustive_spaces.append('off-grid leaves: sequences of 3..4 leaves over %s at rates 1, 2%s'
+                                 % (OFFGRID_KEYS, ' (260 random sequences)' if ctx.quick else ''))
+    return cases
+
+
 def family_malformed(ctx):
     """inputs outside the happy path: bad indices, leaves as targets, quantum 0, empty loops everywhere"""
     rng = ctx.fork('malformed')
@@ -1169,7 +1223,7 @@ def run(ctx: core.Ctx):
         ctx.corpus_replayed += 1
     check_sfg(ctx, ctx.n(40, 120))
     fams = [('exhaustive', family_exhaustive), ('markers', family_markers), ('pipelines', family_pipelines),
-            ('decimal', family_decimal), ('random', family_random), ('templates', family_templates),
+            ('decimal', family_decimal), ('offgrid', family_offgrid), ('random', family_random), ('templates', family_templates),
             ('malformed', family_malformed)]
     for name, fam in fams:
         cases = fam(ctx)
